@@ -62,6 +62,9 @@ INext == /\ IsEvent("inext")
                   \/ /\ InnerNextSingle
                      /\ Rec[l].j = 1
                      /\ Rec[l].p = meta.one
+               \* a listed probability is a number in (0, 1] (micro-units; judged before it is added: an infinite
+               \* "probability" must be a rejected event, not an arithmetic overflow of the tally)
+               /\ Rec[l].lo >= 0 /\ Rec[l].hi >= 1 /\ Rec[l].hi <= 1000001
                /\ acc' = <<acc[1] + Rec[l].lo, acc[2] + Rec[l].hi>>
             \/ /\ Rec[l].kind = "none"
                /\ InnerNextNone
